@@ -2,14 +2,15 @@
 SPEC = dict(
     title="The batching queue is FIFO, lossless and batch-bounded",
     pkg="./queue", files=["queue/c24_verif_test.go"],
-    rule="quick: 7 hand-picked + 200 untimed runs (scripted single producer with consumer pausing, or 2-8 concurrent writers plus a flusher; "
-         "batch size 1-7, channel capacity 1-128, timeout 0 or 1 h) + 50 timed runs (timeout 0.5-4 ms, sleeps of 0.1-4 timeouts); thorough: 20000 + 2000. "
+    rule="quick: 9 hand-picked + 24 backpressure runs (capacity 1-2, stalling consumer, 2-8 writers in tight loops) + 40 oracle-only stress runs of 6-8 x 600 writes + 200 untimed runs (scripted single producer with consumer pausing, or 2-8 concurrent writers plus a flusher; "
+         "batch size 1-7, channel capacity 1-128, timeout 0 or 1 h) + 50 timed runs (timeout 0.5-4 ms, sleeps of 0.1-4 timeouts); thorough: 6000 + 1000 (+1500 backpressure, 600 stress). "
          "A run is non-trivial when it delivered at least one full batch (batch-size writes) and at least one short batch "
          "(cut by an explicit flush or by the timer); distinct by input and observed batch sizes",
     exhaustive=False,
     trusted=["Go channel, mutex and timer semantics as transcribed in Model/C24.v (buffered channel = FIFO list, a receive completes a blocked send, "
              "timer armed = running or fired-undrained); int64 sequence numbers do not overflow",
-             "the driver's reconstruction of a model schedule from what it did and saw (writes ordered by returned sequence number in concurrent runs)"],
+             "the driver's reconstruction of a model schedule from what it did and saw (writes ordered by returned sequence number in concurrent runs)",
+             "Write holds seqMu across the channel send: 'take a sequence number and enqueue' is one atomic model action (checked by the tie under backpressure, not provable from the model)"],
     assumptions=["batchSize >= 1 and channel capacity >= 1", "the consumer closes requests in the order it received them (as runQueue does)",
                  "losslessness is 'while running': writes still queued at Close are dropped by design"],
     level_text="Theorems hold for every configuration with batchSize >= 1 and every finite schedule of Write/Flush/loop/timer/consumer/Close steps; "
